@@ -4,16 +4,17 @@
 set -u
 D="$(readlink -f "$1")"; WT="$2"
 export GOFLAGS=-mod=mod GOPROXY=off; unset GOSUMDB GOTOOLCHAIN
+T=$(mktemp -d /tmp/vm-XXXXXX); trap 'rm -rf "$T"' EXIT
 cd "$WT" || exit 2
 git checkout -q -- . ; git clean -fdq
-go build -o /tmp/trymutant-clean-crd ./cmd || { echo "clean build failed"; exit 2; }
+go build -o $T/clean-crd ./cmd || { echo "clean build failed"; exit 2; }
 git apply "$D/patch.diff" || { echo "RESULT patch does not apply"; exit 1; }
-if ! go build ./... 2>/tmp/vm-build.log; then echo "RESULT does not compile"; git checkout -q -- .; exit 1; fi
-if ! go test -vet=off -count=1 ./... >/tmp/vm-test.log 2>&1; then echo "RESULT existing tests FAIL with the change"; grep -E "^(FAIL|---)" /tmp/vm-test.log | head -5; git checkout -q -- .; exit 1; fi
-go build -o /tmp/trymutant-mut-crd ./cmd
+if ! go build ./... 2>$T/build.log; then echo "RESULT does not compile"; git checkout -q -- .; exit 1; fi
+if ! go test -vet=off -count=1 ./... >$T/test.log 2>&1; then echo "RESULT existing tests FAIL with the change"; grep -E "^(FAIL|---)" $T/test.log | head -5; git checkout -q -- .; exit 1; fi
+go build -o $T/mut-crd ./cmd
 git checkout -q -- . ; git clean -fdq
 chmod +x "$D/demo.sh"
-( cd "$D" && timeout 300 ./demo.sh /tmp/trymutant-mut-crd >/tmp/vm-demo-mut.log 2>&1 ); m=$?
-( cd "$D" && timeout 300 ./demo.sh /tmp/trymutant-clean-crd >/tmp/vm-demo-clean.log 2>&1 ); c=$?
+( cd "$D" && timeout 300 ./demo.sh $T/mut-crd >$T/demo-mut.log 2>&1 ); m=$?
+( cd "$D" && timeout 300 ./demo.sh $T/clean-crd >$T/demo-clean.log 2>&1 ); c=$?
 echo "RESULT tests pass; demo on mutant rc=$m, on clean rc=$c"
 [ "$m" = 1 ] && [ "$c" = 0 ]
